@@ -569,6 +569,7 @@ class Grid:
         """
 
         interp_axes = []
+        interp_to = {}
         for axname, axis in self.axes.items():
             try:
                 position_array, _ = axis._get_position_name(array)
@@ -580,11 +581,18 @@ class Grid:
             except KeyError:
                 continue
             if position_like != position_array:
+                if "center" not in (position_array, position_like):
+                    # no direct shift between two non-center positions: go through the cell center
+                    array = self.interp(
+                        array, axname, to="center", fill_value=fill_value, boundary=boundary
+                    )
                 interp_axes.append(axname)
+                interp_to[axname] = position_like
 
         array = self.interp(
             array,
             interp_axes,
+            to=interp_to,
             fill_value=fill_value,
             boundary=boundary,
         )
